@@ -1648,8 +1648,13 @@ class Server:
         return await self.stor(connection, rest, "ab")
 
     async def rest(self, connection, rest):
-        if rest.isdecimal():
-            connection.restart_offset = int(rest)
+        try:
+            offset = int(rest) if rest.isdecimal() else None
+        except ValueError:
+            # int() refuses very long digit strings
+            offset = None
+        if offset is not None:
+            connection.restart_offset = offset
             connection.response("350", f"restarting at {rest}")
         else:
             connection.restart_offset = 0
